@@ -670,7 +670,7 @@ Qed.
 Lemma default_recv_no_panic jv qt r w :
   wire_resp r = true -> snd (default_recv jv qt r) <> Panic w.
 Proof.
-  destruct r as [n| | |]; cbn [default_recv wire_resp snd]; try discriminate. intros Hw.
+  destruct r as [n| | | |]; cbn [default_recv wire_resp snd]; try discriminate. intros Hw.
   pose proof (recv_updates_no_panic jv (to_strings true (gp_of_opt (cn_prefix n))) (cn_upd n) w Hw) as H1.
   pose proof (recv_deletes_no_panic jv (to_strings true (gp_of_opt (cn_prefix n))) (cn_del n) w) as H2.
   destruct (recv_updates _ _ _) as [evs [x|e|w1]]; cbn in *; try discriminate; [|congruence].
@@ -680,11 +680,12 @@ Qed.
 Theorem client_recv_total_lemma jv qt rs : forall connected w,
   forallb wire_resp rs = true -> snd (ClientRecvModel.run jv qt connected rs) <> Panic w.
 Proof.
-  induction rs as [|r rs IH]; intros connected w; cbn [ClientRecvModel.run forallb]; [discriminate|].
-  intros H. apply andb_true_iff in H as [H1 H2].
+  induction rs as [|r rs IH]; intros connected w; [cbn; discriminate|].
+  cbn [forallb]. intros H. apply andb_true_iff in H as [H1 H2].
   pose proof (default_recv_no_panic jv qt r w H1) as Hd.
-  destruct (default_recv jv qt r) as [evs [[|]|e|w1]]; cbn in *; try discriminate; [|congruence].
-  specialize (IH true w H2). destruct (ClientRecvModel.run jv qt true rs) as [[evs' rest'] o]. cbn in *. exact IH.
+  destruct r as [n| | | |]; cbn [ClientRecvModel.run]; try discriminate;
+    (destruct (default_recv jv qt _) as [evs [[|]|e|w1]]; cbn in *; try discriminate; [|congruence];
+     specialize (IH true w H2); destruct (ClientRecvModel.run jv qt true rs) as [[evs' rest'] o]; cbn in *; exact IH).
 Qed.
 
 Definition wit_resp : resp :=
@@ -923,6 +924,21 @@ Proof.
   - destruct (display_walk_ok with_ts (ctree_apply t ESync) Hwf1) as [r ->]. eauto.
 Qed.
 
+Lemma run_rest_wire jv qt rs : forall c,
+  forallb wire_resp rs = true -> forallb wire_resp (snd (fst (ClientRecvModel.run jv qt c rs))) = true.
+Proof.
+  induction rs as [|r rs IH]; intros c Hw; [reflexivity|].
+  cbn [forallb] in Hw. apply andb_true_iff in Hw as [Ha Hb].
+  destruct r as [n| | | |]; cbn [ClientRecvModel.run]; try exact Hb;
+    (destruct (default_recv jv qt _) as [evs0 [[|]|e0|w0]]; cbn [fst snd]; try exact Hb;
+     specialize (IH true Hb); destruct (ClientRecvModel.run jv qt true rs) as [[evs' rest'] o']; exact IH).
+Qed.
+
+Lemma proto_run_no_panic rs w : snd (proto_run rs) <> Panic w.
+Proof.
+  induction rs as [|r rs IH]; cbn; [discriminate|]. destruct r; cbn; try exact IH. discriminate.
+Qed.
+
 Theorem cli_display_total_lemma jv dt qt with_ts rs w :
   forallb wire_resp rs = true -> snd (query_display false jv dt qt with_ts rs) <> Panic w.
 Proof.
@@ -930,7 +946,7 @@ Proof.
   assert (Hrun : forall c rs', forallb wire_resp rs' = true ->
             forall w', snd (ClientRecvModel.run jv qt c rs') <> Panic w')
     by (intros; now apply client_recv_total_lemma).
-  destruct dt; try discriminate.
+  destruct dt; try discriminate; [| |apply proto_run_no_panic].
   - destruct qt.
     + pose proof (Hrun false rs Hw w) as H.
       destruct (ClientRecvModel.run jv QOnce false rs) as [[evs rest] [x|e|w1]]; cbn in *; try discriminate; [|congruence].
@@ -938,13 +954,7 @@ Proof.
     + pose proof (Hrun false rs Hw w) as H.
       destruct (ClientRecvModel.run jv QPoll false rs) as [[evs rest] [x|e|w1]] eqn:E1; cbn in *; try discriminate; [|congruence].
       assert (Hrest : forallb wire_resp rest = true).
-      { clear H. revert E1. generalize false. revert evs rest Hw. induction rs as [|r0 rs0 IHr]; intros evs rest Hw0 c0; cbn [ClientRecvModel.run].
-        - intros E; inversion E; subst. reflexivity.
-        - cbn in Hw0. apply andb_true_iff in Hw0 as [Ha Hb].
-          destruct (default_recv jv QPoll r0) as [evs0 [[|]|e0|w0]]; try (intros E; discriminate E).
-          + intros E; inversion E; subst. assumption.
-          + destruct (ClientRecvModel.run jv QPoll true rs0) as [[evs' rest'] o'] eqn:E2.
-            intros E; inversion E; subst. eapply IHr; eauto. }
+      { pose proof (run_rest_wire jv QPoll rs false Hw) as Hr. now rewrite E1 in Hr. }
       pose proof (Hrun true rest Hrest w) as H2.
       destruct (ClientRecvModel.run jv QPoll true rest) as [[evs2 rest2] [x2|e2|w2]]; cbn in *; try discriminate; [|congruence].
       destruct (display_walk_ok with_ts (apply_all None (evs ++ evs2))) as [r ->]; [apply apply_all_wf; exact I|]. discriminate.
@@ -1353,12 +1363,12 @@ Definition case_obs_ok (c : case) : Prop :=
   | CSub e _ o _ _ => se_has_peer e = true -> o <> OPanic
   | CRecv _ _ _ o _ _ => o <> OPanic
   | CCli _ _ _ _ _ o _ => o <> OPanic
-  | CMgr rs => Forall (fun ro => fst (snd ro) <> OPanic) rs
+  | CMgr _ rs => Forall (fun ro => fst (snd ro) <> OPanic) rs
   end.
 
 Theorem check_case_sound c : check_case c = [] -> case_obs_ok c.
 Proof.
-  destruct c as [opts targets steps|e f o code synced|jvalid qt rs o evs leaves|jvalid dt qt with_ts rs o recs|mrs];
+  destruct c as [opts targets steps|e f o code synced|jvalid qt rs o evs leaves|jvalid dt qt with_ts rs o recs|cb mrs];
     cbn [check_case case_obs_ok].
   - destruct (existsb (String.eqb "") targets) eqn:Et; [|apply check_ingest_sound].
     exact (fun _ => I).
